@@ -128,11 +128,16 @@ func execWithDeadline(run *Runner, line string) (string, string, bool) {
 		lhs, res := run.Exec(line)
 		ch <- r{lhs, res}
 	}()
-	d := 20 * time.Second
+	d := 60 * time.Second
 	if v := os.Getenv("KVH_OP_TIMEOUT"); v != "" {
 		if n, err := strconv.Atoi(v); err == nil {
 			d = time.Duration(n) * time.Second
 		}
+	}
+	if strings.HasPrefix(line, "edge ") || strings.Contains(line, "!big") {
+		// 64 MiB written and read back, one such call at a time on the whole machine (bigOp): on a loaded machine it
+		// may wait for its turn and for the disk
+		d = 15 * time.Minute
 	}
 	select {
 	case x := <-ch:
